@@ -156,9 +156,9 @@ def worker_main(pid, tier, seed, unit_file, out_file):
             if code.co_filename.startswith(root_pkg):
                 cov.add((code.co_filename[len(root_pkg):], line))
             return mon.DISABLE
-        mon.use_tool_id(4, 'vmon-coverage')
-        mon.register_callback(4, mon.events.LINE, _on_line)
-        mon.set_events(4, mon.events.LINE)
+        mon.use_tool_id(1, 'vmon-coverage')
+        mon.register_callback(1, mon.events.LINE, _on_line)
+        mon.set_events(1, mon.events.LINE)
     ctx = Ctx(pid, tier, seed, job['index'])
     if sys.flags.optimize:
         ctx.count('units_run_under_python_-O')
